@@ -389,7 +389,9 @@ fn run_l2(ops: &[Op2], exits: Option<&[bool]>) -> Verdict {
             Op2::DefineFn(k) => {
                 let name = format!("f{}", k);
                 let line = 2 * k;
-                let first = !defined_fn.contains(k);
+                // a definition counts as new whenever the registry (by the model) does not know the name: also after the
+                // function was removed again, and after an earlier attempt was refused and the name became free since
+                let first = !defined_fn.contains(k) || !m.exists(&name);
                 let kind = if let Some(e) = exits {
                     // the definition is its own run; refused definitions answer Error, which the runner survives
                     let before = world.ctx.commands.commands.len();
